@@ -22,7 +22,7 @@ def facts : List InitFact := [
     imports := [], goList := [] },
   -- c12f/t0/bravo.init
   { id := 3, hasPatchFn := false, chained := false,
-    toks := [.loadGuard, .brGuard .ret .body, .storeGuard, .callInit 2, .act, .brRet],
+    toks := [.loadGuard, .brGuard .ret .body, .storeGuard, .callInit 2, .callInit 0, .act, .brRet],
     imports := [2, 0], goList := [0, 2] },
   -- c12f/t0/beta.init (work-free package)
   { id := 4, hasPatchFn := false, chained := false,
@@ -38,7 +38,7 @@ def facts : List InitFact := [
     imports := [], goList := [] },
   -- c12f/t0/echo.init (work-free package)
   { id := 7, hasPatchFn := false, chained := false,
-    toks := [.loadGuard, .brGuard .ret .body, .storeGuard, .callInit 1, .callInit 6, .brRet],
+    toks := [.loadGuard, .brGuard .ret .body, .storeGuard, .callInit 1, .brRet],
     imports := [1, 6], goList := [1, 6] },
   -- c12f/t0/zeta.init
   { id := 8, hasPatchFn := false, chained := false,
@@ -46,7 +46,7 @@ def facts : List InitFact := [
     imports := [2, 4, 7], goList := [2, 4, 7] },
   -- c12f/t0.init
   { id := 9, hasPatchFn := false, chained := false,
-    toks := [.loadGuard, .brGuard .ret .body, .storeGuard, .callInit 5, .callInit 8, .callInit 1, .callInit 2, .act, .brRet],
+    toks := [.loadGuard, .brGuard .ret .body, .storeGuard, .callInit 5, .callInit 8, .callInit 1, .callInit 0, .callInit 2, .act, .brRet],
     imports := [5, 8, 1, 0, 2], goList := [0, 1, 2, 5, 8] },
   -- math/bits.init (std package compiled by llgo)
   { id := 0, hasPatchFn := false, chained := false,
@@ -62,7 +62,7 @@ def facts : List InitFact := [
     imports := [], goList := [] },
   -- c12f/t1/mid.init
   { id := 3, hasPatchFn := false, chained := false,
-    toks := [.loadGuard, .brGuard .ret .body, .storeGuard, .callInit 1, .callInit 2, .act, .brRet],
+    toks := [.loadGuard, .brGuard .ret .body, .storeGuard, .callInit 1, .callInit 0, .callInit 2, .act, .brRet],
     imports := [1, 0, 2], goList := [0, 1, 2] },
   -- c12f/t1/deep/sierra.init (work-free package)
   { id := 4, hasPatchFn := false, chained := false,
@@ -74,11 +74,11 @@ def facts : List InitFact := [
     imports := [4], goList := [4] },
   -- c12f/t1/kilo.init (work-free package)
   { id := 6, hasPatchFn := false, chained := false,
-    toks := [.loadGuard, .brGuard .ret .body, .storeGuard, .callInit 5, .brRet],
+    toks := [.loadGuard, .brGuard .ret .body, .storeGuard, .brRet],
     imports := [5], goList := [5] },
   -- c12f/t1.init
   { id := 7, hasPatchFn := false, chained := false,
-    toks := [.loadGuard, .brGuard .ret .body, .storeGuard, .callInit 2, .callInit 6, .act, .brRet],
+    toks := [.loadGuard, .brGuard .ret .body, .storeGuard, .callInit 2, .act, .brRet],
     imports := [2, 6], goList := [2, 6] }]
 
 def entries : List EntryFact := [
